@@ -84,7 +84,7 @@ def sweep(ctx, n_hist, n_ops):
         for _ in range(n_ops):
             N = len(P)
             start = None if rng.random() < 0.4 else rng.randint(-N - 3, N + 3)
-            kind = rng.choice(["move", "rot", "rot", "setpos", "setori", "reset"])
+            kind = rng.choice(["move", "rot", "rot", "angax", "euler", "setpos", "setori", "reset"])
             nps = np.random.default_rng(rng.randrange(2**31))
             if kind == "move":
                 n = rng.choice([0, 1, 2, 3])
@@ -113,6 +113,30 @@ def sweep(ctx, n_hist, n_ops):
                 obj.rotate(None if give_none else rot, anchor=anchor_arg, start=start_arg(start))
                 P, Q = ref_rotate(P, Q, rot, anchor, start)
                 branch["rot-none" if give_none else "rot"] = branch.get("rot-none" if give_none else "rot", 0) + 1
+            elif kind in ("angax", "euler"):
+                # the angle as the user may write it: a number, a numpy float, a list, a tuple or an ndarray — n angles are n rotations
+                # (vector input, ALSO for n = 1), one number is one rotation of the whole path (scalar input)
+                n = rng.choice([1, 1, 2, 3])
+                scalar_in = rng.random() < 0.4
+                ax_i = rng.randrange(3)
+                axv = np.eye(3)[ax_i]
+                angs = nps.uniform(-170, 170, n)
+                if scalar_in:
+                    a_ = float(angs[0])
+                    angle_arg = rng.choice([a_, np.float64(a_), int(round(a_))])
+                    rot = R.from_rotvec(np.radians(float(angle_arg)) * axv)
+                else:
+                    angle_arg = rng.choice([list(angs), tuple(angs), np.array(angs), np.linspace(angs[0], angs[-1], n)])
+                    rot = R.from_rotvec(np.radians(np.asarray(angle_arg, dtype=float))[:, None] * axv)
+                a = rng.random()
+                anchor = None if a < 0.3 else (0 if a < 0.4 else nps.uniform(-2, 2, 3))
+                hist.append((kind, np.asarray(angle_arg, dtype=float).tolist(), type(angle_arg).__name__, "xyz"[ax_i], None if anchor is None else np.asarray(anchor).tolist(), start))
+                if kind == "angax":
+                    obj.rotate_from_angax(angle_arg, "xyz"[ax_i] if rng.random() < 0.5 else tuple(axv * 2.5), anchor=anchor, start=start_arg(start))
+                else:
+                    obj.rotate_from_euler(angle_arg, "xyz"[ax_i], anchor=anchor, start=start_arg(start))
+                P, Q = ref_rotate(P, Q, rot, anchor, start)
+                branch[f"{kind}-{'scalar' if scalar_in else 'vector'}:{type(angle_arg).__name__}:n={1 if scalar_in else n}"] = branch.get(f"{kind}-{'scalar' if scalar_in else 'vector'}:{type(angle_arg).__name__}:n={1 if scalar_in else n}", 0) + 1
             elif kind == "setpos":
                 n = rng.choice([1, 2, 4])
                 v = nps.uniform(-2, 2, (n, 3))
